@@ -120,7 +120,14 @@ def r2(cx):
 def r3(cx):
     f = cx.f
     b = f.body("DatabaseCheckpoint::create_checkpoint")
-    fl = sites(cx, b, "DatabaseCheckpoint::flush_all_memtables")
+    # the flush step: the call(s) in create_checkpoint through which the immutable queue is flushed synchronously
+    # (today a private helper `flush_all_memtables`; structural, so that inlining / renaming the helper changes nothing)
+    FLUSH = {"CoreInner::flush_all_immutables_sync"}
+    fl = [c for c in b.calls if c.bb in b.live and not c.copy_of and f.call_must_reach(c, FLUSH)]
+    if not fl:
+        fl = [c for c in b.calls if c.bb in b.live and not c.copy_of and f.call_may_reach(c, FLUSH)]
+    if not fl:
+        raise AnchorMissing("create_checkpoint no longer reaches CoreInner::flush_all_immutables_sync")
     cp = [c for c in b.calls if c.bb in b.live and c.names & {"DatabaseCheckpoint::copy_sstables", "DatabaseCheckpoint::copy_level_manifest", "DatabaseCheckpoint::copy_vlog_directories"}]
     cx.floor("copy steps", len(cp), 3)
     dom(cx, b, fl, cp, "memtables flushed before files are copied")
@@ -130,11 +137,29 @@ def r3(cx):
     o = origin_of_operand(b, md[0].args[1])
     cx.check(any(x in sq for x in o.calls), "the recorded sequence number is the manifest's last_sequence", "checkpoint-seq-source", md[0].where())
     # flush_all_memtables rotates the active memtable and flushes all immutables
-    fb = f.body("DatabaseCheckpoint::flush_all_memtables")
-    cx.check(f.may_reach(fb.id, "CoreInner::rotate_memtable") and f.may_reach(fb.id, "CoreInner::flush_all_immutables_sync"), "checkpoint flush = rotate + flush all immutables", "checkpoint-flush", fb.where())
-    for x in [x for x, k in exits(fb) if k in ("ok", "tail")]:
-        cs = fb.calls_to("CoreInner::flush_all_immutables_sync")
-        cx.check(fb.set_dominates([c.bb for c in cs], x) or x in {c.bb for c in cs}, "flush_all_memtables always flushes the immutable queue", "checkpoint-flush-skips", fb.where(x))
+    # the body that contains the flush: the helper if there is one, else create_checkpoint itself
+    fb = b
+    cur = fl[0]
+    for _ in range(4):
+        if cur.names & FLUSH:
+            break
+        nxt = [f.bodies[f.canon_to_id[t]] for t in cur.targets if t in f.canon_to_id]
+        if len(nxt) != 1:
+            break
+        fb = nxt[0]
+        inner = [c for c in fb.calls if c.bb in fb.live and f.call_may_reach(c, FLUSH) or c.names & FLUSH]
+        if not inner:
+            break
+        cur = inner[0]
+    cx.check(f.may_reach(fb.id, "CoreInner::rotate_memtable") and (f.may_reach(fb.id, "CoreInner::flush_all_immutables_sync") or bool(fb.calls_to("CoreInner::flush_all_immutables_sync"))),
+             "checkpoint flush = rotate + flush all immutables", "checkpoint-flush", fb.where())
+    cs = fb.calls_to("CoreInner::flush_all_immutables_sync")
+    rot = fb.calls_to("CoreInner::rotate_memtable")
+    if rot and cs:
+        never_after(cx, fb, cs, rot, "the active memtable is rotated before the immutable queue is flushed", key="checkpoint-rotate-after-flush")
+    if fb is not b:
+        for x in [x for x, k in exits(fb) if k in ("ok", "tail")]:
+            cx.check(fb.set_dominates([c.bb for c in cs], x) or x in {c.bb for c in cs}, "the checkpoint flush always flushes the immutable queue", "checkpoint-flush-skips", fb.where(x))
     enc, dec = f.body("CheckpointMetadata::to_bytes"), f.body("CheckpointMetadata::from_bytes")
     prim_w = {"write_u8", "write_u16", "write_u32", "write_u64"}
     prim_r = {"read_u8", "read_u16", "read_u32", "read_u64"}
